@@ -214,7 +214,20 @@ def c2_rootlist(fb, rep):
     rep.floor(clause, 'searchmoves filter in startThread', len(fl), 1)
     for b, i, e in fl:
         g = G.guards_of(st, set(st.blocks), b)
-        ok = any('searchMoves.size() > 0' in x and not x.startswith('!') for x in g) and 'searchMoves' in show((e.get('args') or [{}])[0])
+        # the filter argument is the searchmoves list, and the filter is skipped exactly when that list is empty
+        arg0 = (e.get('args') or [{}])[0]
+        src = ap(arg0) or show(arg0)
+        def lst(nonempty, _src=src):
+            def leaf(t):
+                if t.get('k') == 'call' and t.get('recv') is not None and (ap(t['recv']) or show(t['recv'])) == _src:
+                    nm = cname(t).split('::')[-1]
+                    if nm == 'size':
+                        return ('v', 3 if nonempty else 0)
+                    if nm == 'empty':
+                        return ('v', 0 if nonempty else 1)
+                return None
+            return leaf
+        ok = 'searchMoves' in show(arg0) and G.excluded_under(st, b, lst(False)) and not G.excluded_under(st, b, lst(True))
         rep.ob(clause, 'K4 guard', 'startThread restricts the root list to the given searchmoves', ok, R.site(st, e), 'guards %s' % g, st.sname)
         w = st.path_avoiding((b, i), lambda x: x is not None and (gen(x) or fil(x)), R.never)
         rep.ob(clause, 'K2 must-precede', 'startThread: the searchmoves restriction is the last operation on the list', w is None, R.site(st, e), '', st.sname)
